@@ -136,7 +136,9 @@ def many_keys(p):
         v4 = 5
         jk = 8 % K
         keys = [(k,) for k in range(K)]
-        ev = [rs.OnCreateMux(k) for k in keys]
+        # creation is interleaved with items: keys 0, 1, 2 first; key 0 gets two items, key 2 none for now (a key that is live but has not been written yet);
+        # every further key is created - the tables grow while earlier keys hold state - and touched with one item
+        ev = [rs.OnCreateMux(k) for k in keys[:3]]
         per = {k: [] for k in range(K)}
 
         def push(k, v):
@@ -144,8 +146,11 @@ def many_keys(p):
             per[k].append(v)
         push(0, v0)
         push(0, v1)
-        for k in range(1, K):
-            push(k, (v2 if k == 1 else k) if 'distinct' not in p['inner'] else (v2 % 4 if k == 1 else k % 4))       # only key 1 gets a symbolic item here: the others are touched with concrete ones
+        for k in range(3, K):
+            ev.append(rs.OnCreateMux((k,)))
+            push(k, k if 'distinct' not in p['inner'] else k % 4)
+        push(1, v2 if 'distinct' not in p['inner'] else v2 % 4)     # only key 1 gets a symbolic item here: the others are touched with concrete ones
+        push(2, 7 if 'distinct' not in p['inner'] else 3)
         push(0, v3)
         push(jk, v4)
         push(K - 1, v4)
@@ -155,7 +160,7 @@ def many_keys(p):
         outs, ok = D.lifetimes(log)
         if err or not ok or len(outs) != K:
             return fail(inner=C.show(desc), keys=K, log=log[:40], err=err)
-        for k in (0, jk, K - 1, 1, K // 2):
+        for k in (0, jk, K - 1, 1, 2, K // 2, 3):
             exp = standalone(per[k], desc)
             if outs[k] != exp:
                 return fail(inner=C.show(desc), live_keys=K, key=k, key_items=per[k], observed=outs[k], expected=exp)
